@@ -108,6 +108,12 @@ def boot(extra_whitelist: list[str] | None = None) -> dict:
     import junit_xml  # noqa: F401
 
     _stub_background_threads()
+    if os.environ.get("SIM_NO_LOCAL_CONSTANTS"):
+        # diagnostic switch only (never set by a check): take Hypothesis' module-scanned constant pool out
+        import hypothesis.internal.conjecture.providers as hp
+
+        empty = hp.Constants()
+        hp._get_local_constants = lambda: empty
     swept = S.sweep_modules()
     wl = list(DEFAULT_WHITELIST) + list(extra_whitelist or [])
     ncodes = S.enable_line_events(wl)
